@@ -1,7 +1,7 @@
 #!/bin/bash
-# usage: confirm_seed.sh <Cxx> <k>   — independent confirmation of a seeded change in the scratch worktree /tmp/seed/<Cxx>
+# usage: [SEED_ROOT=/tmp/seed2] confirm_seed.sh <Cxx> <k>   — independent confirmation of a seeded change in the scratch worktree $SEED_ROOT/<Cxx> (default /tmp/seed)
 # (a) test suite passes with the change, (b) demo fails with it, (c) demo passes without it. Writes out/change<k>/confirm.log
-id=$1; k=$2; wt=/tmp/seed/$id; out=$wt/out/change$k; log=$out/confirm.log
+id=$1; k=$2; wt=${SEED_ROOT:-/tmp/seed}/$id; out=$wt/out/change$k; log=$out/confirm.log
 cd $wt || exit 2
 git checkout -q -- src test 2>/dev/null
 : > $log
